@@ -10,7 +10,7 @@ Definition key := list label.
 Definition terms := list (key * Q).
 Definition env := label -> Q.
 
-Inductive err := KeyError | ValueError | TypeError | IndexError | RuntimeError | OutOfFuel.
+Inductive err := KeyError | ValueError | TypeError | IndexError | RuntimeError | OutOfFuel | ZeroDivisionError.
 Inductive result (A : Type) := Ok (a : A) | Err (e : err).
 Arguments Ok {A} a.
 Arguments Err {A} e.
@@ -18,7 +18,8 @@ Arguments Err {A} e.
 Definition err_eqb (a b : err) : bool :=
   match a, b with
   | KeyError, KeyError | ValueError, ValueError | TypeError, TypeError
-  | IndexError, IndexError | RuntimeError, RuntimeError | OutOfFuel, OutOfFuel => true
+  | IndexError, IndexError | RuntimeError, RuntimeError | OutOfFuel, OutOfFuel
+  | ZeroDivisionError, ZeroDivisionError => true
   | _, _ => false
   end.
 
